@@ -3,7 +3,7 @@ import random
 
 from .. import gen, harness, mon, ref, runfam
 from ..core import Check, derive_seed
-from ..model import Expr, Ref, walk_tree, node_refs
+from ..model import Expr, In, Ref, Program, walk_tree, node_refs
 
 
 def edges(prog):
@@ -54,7 +54,9 @@ def run(check):
     check.rule = ("generated programs with cross-step references in input / wait_for / deploy / enabled fields (chains, diamonds, fan-in/out, "
                   "wait_for on outputs and stages, deploy-time expressions, foreach items); producer executions are gated so that the consumer is "
                   "deployed first, or left free, plus random delay plans; monitor: every exec-start / deploy-call is preceded in the log by the "
-                  "production event of everything it refers to, and the logged input equals the reference evaluation over the logged values; "
+                  "production event of everything it refers to, and the logged input equals the reference evaluation over the logged values; plus step inputs with a "
+                  "field that cannot be evaluated (the step must not be started without it) and programs with members that are ready from the start under "
+                  "multi-site delay plans; "
                   "non-trivial = at least one cross-step reference; distinct = (shape, referencing field kinds, consumer-first gating, arrival order)")
     check.assumptions = ["values carry provenance: every scripted step derives its output from its input and its own name"]
     items = []
@@ -77,6 +79,45 @@ def run(check):
             opts["plan_scope"] = "execute"
         case, sem = runfam.build_case("c02-%05d" % i, g, **opts)
         gates_of[case["id"]] = gated
+        items.append((case, sem, g))
+    # (b) a field of a step input that cannot be evaluated although its producers are done: the step must not be started
+    # with the field left out (the run ends with an error instead)
+    for j in range(check.pick(60, 600)):
+        rng = random.Random(derive_seed(check.seed, "c02-fault", j))
+        g = runfam.gen_terminating(check.seed, "c02-f%d" % j, shape=rng.choice(["chain", "diamond", "fan_in", "wait_for", "multiref"]), p_fail=0.0)
+        if g is None:
+            continue
+        prog = g["program"]
+        what = gen.add_fault(rng, prog.steps, prog.outputs, where=rng.choice(["step-needed", "step-unneeded"]))
+        g["scripts"] = gen.make_scripts(prog.steps, g["outcome"])
+        g["shape"] = "%s/evalfault(%s)" % (g["shape"], what)
+        case, sem = runfam.build_case("c02-f%04d" % j, g)
+        gates_of[case["id"]] = []
+        items.append((case, sem, g))
+    # (c) members that are ready from the very start (optional / one-of values that only need the workflow input) next to
+    # ordinary cross-step references, under random multi-site delay plans: the initial delivery round then overlaps with
+    # the first completions
+    from ..model import Opt, OneOf
+    for j in range(check.pick(150, 1500)):
+        rng = random.Random(derive_seed(check.seed, "c02-early", j))
+        a = gen.plugin_step("a", Expr(In("tag")))
+        early = rng.choice([{"x": Opt(In("tag"), True)}, {"x": Opt(In("tag"), False)}, {"x": OneOf("k", {"i": {"t": Expr(In("tag"))}})}, [Opt(In("n"), True), Opt(In("tag"), False)]])
+        c = gen.plugin_step("c", gen.tagref("a"), extra_input={"a": early})
+        steps = [a, c] + [gen.plugin_step("p%d" % k, Expr(In("tag"))) for k in range(rng.choice([0, 1, 3]))]
+        rng.shuffle(steps)
+        outs = {"success": {"c": gen.tagref("c"), "e": Opt(In("tag"), True)}}
+        prog = Program(steps, outs, gen.BASE_INPUT)
+        g = {"program": prog, "scripts": gen.make_scripts(steps, {}), "input": gen.base_input(rng), "shape": "ready-from-start-member", "outcome": {}}
+        plan = {"seed": rng.randrange(1 << 30), "prob": rng.choice([30, 60]), "choices": [-1, 1, 10, 35], "max_acts": 12, "record": True}
+        if j % 3:
+            # the delivery round is held where it resolves a member that is ready from the start, and every placement of a
+            # step output into the data model takes a while: the next delivery round begins while some output is resolved
+            # in the graph but not yet stored
+            sites = [{"point": "wf:loopState.notifySteps:resolve#1", "hit": h, "ms": rng.choice([25, 40])} for h in (1, 2)]
+            sites += [{"point": "wf:loopState.onStageComplete:%s" % rng.choice(["store#1", "store#1", "resolve#2", "store#2"]), "hit": h, "ms": 15} for h in range(1, 9)]
+            plan = {"sites": sites, "record": True}
+        case, sem = runfam.build_case("c02-e%04d" % j, g, plan=plan, plan_scope="execute")
+        gates_of[case["id"]] = []
         items.append((case, sem, g))
     orders = set()
     stats = {"consumer_first_observed": 0, "deploy_time_refs": 0}
@@ -117,6 +158,13 @@ def run(check):
         # a stage input (or output) evaluated before its data exists shows up as an evaluation error of the run
         if "cannot resolve expressions" in (run.get("err") or "") and sem.result()["avail"] and not sem.result()["fault"]:
             vs.append(mon.V("C02", "input@evaluated-before-production", "expressions were evaluated before the data they refer to had been produced: %s" % run["err"][:300]))
+        # a step one of whose input expressions cannot be evaluated must not be started with something else instead
+        for name, why in sem.step_faults.items():
+            src = sem.p.step(name).src
+            for e in res.get("events") or []:
+                if e["kind"] == "exec-start" and e["src"] == src:
+                    vs.append(mon.V("C02", "input@unevaluable-field-replaced", "plugin %s was started with input %r although an expression of its input cannot be evaluated (%s)" % (
+                        src, (e.get("data") or {}).get("raw"), why)))
         return vs
 
     with harness.Runner() as rn:
